@@ -10,8 +10,8 @@ RULE = ("Cases: order-one signals (all families, 6..256 samples) x stop rule x s
         "sift(c*x, sift_thresh=|c|*t); (real) c real with 1e-3<=|c|<=1e3 and (reverse) x[::-1] - asserted to 1e-6 "
         "relative on the prefix of IMFs whose extraction the reference model shows well conditioned (stop metric > "
         "1e-6 from its threshold, no adjacent iterate samples closer than 1e-7); (mask) mask_sift with mask_amp_mode "
-        "in {ratio_sig, ratio_imf}, explicit float/list mask frequencies and 'zc', bit for bit for c=2^k>0, with "
-        "tolerance and guard for real c>0 and (even nphases) c<0. Non-trivial: >=1 compared IMF that needed >=2 "
+        "in {ratio_sig, ratio_imf}, explicit float/list mask frequencies and 'zc', nprocesses 1..3, bit for bit for c=2^k>0, with "
+        "tolerance and guard for real c>0 and (even nphases) c<0 (1e-6; between 1e-9 and 1e-6 only if the reference shows that much amplification of a re-rounding). Non-trivial: >=1 compared IMF that needed >=2 "
         "iterations, or >=2 compared columns.")
 ASSUMPTIONS = ["sift_thresh is an absolute threshold by documentation, so it is scaled with |c|",
                "relations 'to within rounding' are only asserted on the well-conditioned prefix (guard band); "
@@ -163,6 +163,24 @@ def compare_prefix(rec, sig, A, B, x, case, transform):
         j = int(np.argmax(np.abs(A[:, :good] - B[:, :good]).max(axis=0)))
         raise Violation('C02/%s/sift/prefix-differs/%s' % (sig, case['opts']['stop_method']),
                         'rel dev %.3g in column %d of %d compared (%s)' % (dev, j, good, transform))
+    if dev > 1e-9:
+        # far above double-precision rounding unless the extraction amplifies it: measure the amplification in the reference
+        # (layer inputs times 1 + 2^-30) and accept only what a thousand such re-roundings could explain
+        f = 1.0 + 2.0 ** -30
+        sens = 0.0
+        xf = np.asarray(x, dtype=float)
+        for j in range(good):
+            res = xf - A[:, :j].sum(axis=1)
+            r1 = refmodel.ref_extract(res, envelope_opts=eo, extrema_opts=xo, hard_cap=1200, **case['opts'])
+            r2 = refmodel.ref_extract(res * f, envelope_opts=eo, extrema_opts=xo, hard_cap=1200, **case['opts'])
+            if r1.imf is None or r2.imf is None:
+                sens = np.inf
+                break
+            sens = max(sens, float(np.abs(r2.imf / f - r1.imf).max() / scale))
+        if dev > 1000 * sens + 1e-12:
+            raise Violation('C02/%s/sift/prefix-differs-beyond-double-precision-rounding/%s' % (sig, case['opts']['stop_method']),
+                            'rel dev %.3g over %d columns (%s); re-rounding the inputs moves the reference by %.3g' % (dev, good, transform, sens))
+        rec.cls('1e-9<dev<1e-6 explained by measured amplification')
     return good
 
 
@@ -231,7 +249,7 @@ def mask_case(draw, dyadic):
     if amp == 'array':
         amp = np.array([1.0, 0.5, 2.0, 1.5, 0.75])
     return {'sig': sig, 'mode': draw(st.sampled_from(['ratio_sig', 'ratio_imf'])), 'mask_amp': amp,
-            'freqs': freqs, 'nphases': nph, 'max_imfs': draw(st.integers(2, 4)), 'c': c,
+            'freqs': freqs, 'nphases': nph, 'max_imfs': draw(st.integers(2, 4)), 'c': c, 'nproc': draw(st.sampled_from([1, 1, 2, 3])),
             'opts': {'stop_method': draw(st.sampled_from(['sd', 'fixed'])), 'max_iters': draw(st.sampled_from([3, 8, 1000]))}}
 
 
@@ -244,7 +262,7 @@ def run_mask(emd, x, case, thresh):
     try:
         return np.asarray(emd.sift.mask_sift(x.copy(), mask_amp=case['mask_amp'], mask_amp_mode=case['mode'],
                                              mask_freqs=case['freqs'], nphases=case['nphases'], max_imfs=case['max_imfs'],
-                                             sift_thresh=thresh, imf_opts=opts)), opts
+                                             sift_thresh=thresh, imf_opts=opts, nprocesses=case.get('nproc', 1))), opts
     except emd.support.EMDSiftCovergeError:
         return None, opts
     except Exception as e:
@@ -299,6 +317,32 @@ def oracle_mask(case, rec):
     if dev > 1e-6:
         raise Violation('C02/mask/real/prefix-differs/%s/%s' % (case['mode'], 'negative' if c < 0 else 'positive'),
                         'c=%r rel dev %.3g over %d columns' % (c, dev, good))
+    if dev > 1e-9:
+        # between 1e-9 and 1e-6: far above double-precision rounding unless the extraction amplifies it. The amplification is
+        # measured in the reference: the same masked extractions of the layers' inputs times (1 + 2^-30). A deviation more
+        # than a thousand times what that re-rounding does is not rounding of the arithmetic the routine documents.
+        f = 1.0 + 2.0 ** -30
+        sens = 0.0
+        for j in range(good):
+            res = x - A[:, :j].sum(axis=1)
+            sd = x.std() if (case['mode'] == 'ratio_sig' or j == 0) else A[:, j - 1].std()
+            amp = (case['mask_amp'][j] if isinstance(case['mask_amp'], np.ndarray) else case['mask_amp']) * sd
+            z = case['freqs'][j] if isinstance(case['freqs'], list) else case['freqs'] / 2 ** j
+            outs = []
+            for g in (1.0, f):
+                acc = 0.0
+                for p in range(case['nphases']):
+                    m = g * amp * np.cos(2 * np.pi * z * tt + 2 * np.pi * p / case['nphases'])
+                    r = refmodel.ref_extract(g * res + m, hard_cap=1200, **opts)
+                    acc = acc + (r.imf - m)
+                outs.append(acc / case['nphases'] / g)
+            sens = max(sens, float(np.abs(outs[0] - outs[1]).max() / np.abs(x).max()))
+        if dev > 1000 * sens + 1e-12:
+            raise Violation('C02/mask/real/prefix-differs-beyond-double-precision-rounding/%s/%s' % (
+                case['mode'], 'nprocesses>1' if case.get('nproc', 1) > 1 else 'nprocesses=1'),
+                'c=%r rel dev %.3g over %d columns; re-rounding the inputs moves the reference by %.3g' % (c, dev, good, sens))
+        rec.cls('1e-9<dev<1e-6 explained by measured amplification')
+    rec.cls('nprocesses=%d' % case.get('nproc', 1))
     rec.cls('negative' if c < 0 else 'positive')
     return good >= 2
 
